@@ -92,3 +92,6 @@ package xpush
 //@   at call:append#1 assert forall(k, 0, i, result[k] == at("call:Lock#1", s.readyQ[k])) && forall(k, i, len(result), result[k] == at("call:Lock#1", s.readyQ[k+1]))
 //@   before call:delete#1 assert found ==> len(s.readyQ) == at("call:Lock#1", len(s.readyQ)) - 1
 //@   before call:delete#1 assert !found ==> s.readyQ == at("call:Lock#1", s.readyQ) && forall(k, 0, len(s.readyQ), s.readyQ[k] != p)
+//@
+//@ func (*socket).RemovePipe
+//@   before call:Unlock#1 assert !has(s.pipes, pp.ID())
